@@ -1672,10 +1672,14 @@ class Parameter(_ParameterBase):
                       old=_old, new=val, type=None)
 
         # Copy watchers here since they may be modified inplace during iteration
-        for watcher in sorted(watchers, key=lambda w: w.precedence):
-            obj.param._call_watcher(watcher, event)
-        if not obj.param._BATCH_WATCH:
-            obj.param._batch_call_watchers()
+        try:
+            for watcher in sorted(watchers, key=lambda w: w.precedence):
+                obj.param._call_watcher(watcher, event)
+        finally:
+            # also when a watcher raised: what a queued watcher assigned
+            # before failing is announced now, not at some later assignment
+            if not obj.param._BATCH_WATCH:
+                obj.param._batch_call_watchers()
 
     def _validate_value(self, value, allow_None):
         """Validate the parameter value against constraints.
